@@ -87,6 +87,13 @@ def invalidateOk (after : Cache) (group : Option String) (examined : List (Strin
 def allInvalid (c : Cache) : Bool :=
   c.t2b.isEmpty && c.topicParts.isEmpty && c.topicErrs.isEmpty && c.groups.isEmpty
 
+/-- the client never forgets the address of a broker it has learned (`_brokers` is only ever added to or
+    overwritten): the known brokers are what a broker-agnostic request - the metadata reload that heals stale
+    routing - is tried on before the bootstrap hosts, which may be gone by then.  Evaluated on every pair of
+    consecutive dumps; proved of every event of the model (`C08_brokers_never_forgotten`). -/
+def brokersKept (before after : Cache) : Bool :=
+  before.brokers.all (fun e => Afkak.ClientCache.hasKey e.1 after.brokers)
+
 /-- cache well-formedness that the real client maintains (checked on every observed dump):
     unique keys, and a routing entry only for a partition listed for its topic -/
 def wf (c : Cache) : Bool :=
